@@ -20,7 +20,8 @@ var c15Decoys = []core.Tree{
 	{"crs/regex-assembly/123456.ra.bak": "  unformatted\n\n\n", "crs/regex-assembly/include/inc.ra~": " x\n"},
 	{"crs/rules/REQUEST-222-X.conf.bak": setupExample, "crs/rules/notes.txt": "# OWASP CRS ver.3.0.0\n", "crs/x.confx": setupExample, "crs/example": setupExample},
 	{"crs/tests/regression/tests/REQUEST-123-TEST/654321.bak.yaml": testYaml, "crs/tests/regression/tests/REQUEST-123-TEST/1234567.yaml": testYaml},
-	{"crs/tests/regression/tests/REQUEST-123-TEST/12345.yaml": testYaml, "crs/tests/regression/654321.yaml.orig": testYaml, "crs/tests/654321.yaml": testYaml},
+	{"crs/tests/regression/tests/REQUEST-123-TEST/654322.txt": testYaml, "crs/tests/regression/tests/REQUEST-123-TEST/654323.yaml.disabled": testYaml + "\n\n", "crs/tests/regression/tests/REQUEST-123-TEST/NOTES.md": "tests:\n  - test_id: 4", "crs/tests/regression/tests/REQUEST-123-TEST/123456.txt": testYaml,
+		"crs/tests/regression/tests/REQUEST-123-TEST/12345.yaml": testYaml, "crs/tests/regression/654321.yaml.orig": testYaml, "crs/tests/654321.yaml": testYaml},
 	{"other/regex-assembly/999999.ra": " z\n", "other/rules/REQUEST-999-O.conf": setupExample, "other/tests/regression/tests/T/999999.yaml": testYaml, "other/crs-setup.conf.example": setupExample},
 	{"outer.conf": setupExample, "outer.ra": " q\n", "654321.yaml": testYaml, "x.example": setupExample},
 	{"crs/regex-assembly/.gitkeep": "", "crs/regex-assembly/include/.gitkeep": "", "crs/rules/.gitkeep": "", "crs/tests/regression/tests/.gitkeep": "", "crs/tests/regression/tests/REQUEST-123-TEST/.gitkeep": "", "crs/.editorconfig": "root = true\n"},
@@ -75,6 +76,12 @@ func c15Commands() []c15Cmd {
 		{Name: "renumber", Args: []string{"util", "renumber-tests", "123456"}, Targets: one("crs/tests/regression/tests/REQUEST-123-TEST/123456.yaml")},
 		{Name: "renumber yml", Args: []string{"util", "renumber-tests", "123457.yml"}, Targets: one("crs/tests/regression/tests/REQUEST-123-TEST/123457.yml")},
 		{Name: "renumber --all", Args: []string{"util", "renumber-tests", "--all"}, Targets: testFiles},
+		// arguments that resolve (by glob) to files that are not test files
+		{Name: "renumber other extension", Args: []string{"util", "renumber-tests", "654322"}, Targets: testFiles},
+		{Name: "renumber disabled test file", Args: []string{"util", "renumber-tests", "654323"}, Targets: testFiles},
+		{Name: "renumber other name", Args: []string{"util", "renumber-tests", "NOTES"}, Targets: testFiles},
+		{Name: "renumber other name with extension", Args: []string{"util", "renumber-tests", "NOTES.md"}, Targets: testFiles},
+		{Name: "renumber txt beside yaml", Args: []string{"util", "renumber-tests", "123456.txt"}, Targets: testFiles},
 		{Name: "update-copyright", Args: []string{"chore", "update-copyright", "-v", "4.1.0", "-y", "2031"}, Targets: confFiles},
 	}
 	for _, sh := range []string{"bash", "zsh", "fish", "powershell"} {
